@@ -140,6 +140,22 @@ Definition fallback1 (hs : list shost) (pol : fallback_policy) (dflt : path) : o
 Definition fallback2 (hs : list shost) (pol : fallback_policy) (dflt : path) : option (list shost) :=
   match pol with NoFallBack => None | AnyEndPoint => Some hs | DefaultSubset => Some (filter_hosts hs dflt) end.
 
+(* ---------------- selector normalisation: types.InitSet + GenerateSubsetKeys ----------------
+   InitSet: the keys of one configured selector, de-duplicated and sorted (the model inserts each key into a
+   strictly sorted list - same result as "drop repeats, then sort").  GenerateSubsetKeys: the normalised selectors
+   in configuration order, a selector being dropped only when an EQUAL key list is already present
+   (reflect.DeepEqual on the sorted key lists). *)
+Fixpoint insert_uniq (x : nat) (l : list nat) : list nat :=
+  match l with
+  | [] => [x]
+  | y :: l' => if Nat.ltb x y then x :: l else if Nat.eqb x y then l else y :: insert_uniq x l'
+  end.
+Definition init_set (keys : list nat) : list nat := fold_right insert_uniq [] keys.
+Fixpoint keys_eqb (a b : list nat) : bool :=
+  match a, b with [], [] => true | x :: a', y :: b' => Nat.eqb x y && keys_eqb a' b' | _, _ => false end.
+Definition generate_subset_keys (cfg : list (list nat)) : list (list nat) :=
+  fold_left (fun acc keys => let s := init_set keys in if existsb (keys_eqb s) acc then acc else acc ++ [s]) cfg [].
+
 (* ---------------- the balancer: (all hosts, trie, fallback hosts) ---------------- *)
 Record sslb := mkS { s_hosts : list shost; s_trie : trie; s_fallback : option (list shost) }.
 Definition make1 hs selectors pol dflt := mkS hs (build1 hs selectors) (fallback1 hs pol dflt).
@@ -190,15 +206,20 @@ Fixpoint nat_list_eqb (a b : list nat) : bool :=
 (* one query: criteria, (HostNum, IsExistsHosts, sorted ids ChooseHost returned) for each builder *)
 Definition ss_obs := (nat * bool * list nat)%type.
 Definition ss_query := (option path * ss_obs * ss_obs)%type.
-Definition ss_case := (list shost * list (list nat) * fallback_policy * path * list ss_query)%type.
+(* hosts, CONFIGURED selectors, the selector list GenerateSubsetKeys produced, policy, default subset, queries *)
+Definition ss_case := (list shost * list (list nat) * list (list nat) * fallback_policy * path * list ss_query)%type.
+Fixpoint sels_eqb (a b : list (list nat)) : bool :=
+  match a, b with [], [] => true | x :: a', y :: b' => keys_eqb x y && sels_eqb a' b' | _, _ => false end.
 Definition obs_ok (b : sslb) (c : option path) (o : ss_obs) : bool :=
   match o with (n, e, ids) =>
     Nat.eqb (host_num b c) n && Bool.eqb (is_exists b c) e && nat_list_eqb (sort_ids (choose_set b c)) ids end.
 Definition ss_case_ok (k : ss_case) : bool :=
   match k with
-  | (hs, selectors, pol, dflt, qs) =>
+  | (hs, cfg, observed, pol, dflt, qs) =>
+      let selectors := generate_subset_keys cfg in
       let b1 := make1 hs selectors pol dflt in
       let b2 := make2 hs selectors pol dflt in
+      sels_eqb selectors observed &&
       forallb (fun q => match q with (c, o1, o2) => obs_ok b1 c o1 && obs_ok b2 c o2 end) qs
   end.
 Fixpoint ss_mismatches_from (i : nat) (l : list ss_case) : list nat :=
